@@ -414,6 +414,15 @@ Local Infix "+s+" := String.append (at level 60, right associativity).
 Definition cache_package_call_names (advs : list (path * path)) : list string :=
   List.map (fun st => "paths.AdvertiseCachedFile(" +s+ member_field (member_of_path (fst st)) +s+ ")") advs.
 
+(* which of the two orders of cachePackage the source has: the control section
+   is advertised last iff the last AdvertiseCachedFile call is the ControlFile's
+   (the order itself is compared in full by c19_code_order) *)
+Definition ctl_last_of_calls (calls : list string) : bool :=
+  match List.rev calls with
+  | c :: _ => String.eqb c ("paths.AdvertiseCachedFile(" +s+ member_field MCtl +s+ ")")
+  | [] => false
+  end.
+
 (* PackageData as modelled by [Rebuild]: open the tar; else open the data
    section, create a TEMPORARY file, copy, rename it to the final name, reopen
    (os.Remove calls are the error paths and are not compared) *)
